@@ -78,6 +78,21 @@ func TestVF_C17(t *testing.T) {
 		}
 		i2, err := chaininfo.InfoFromProto(p)
 		check("proto", i2, err)
+		// the same paths with metadata supplied by the caller (as the daemon and the relays do): whatever the
+		// metadata said before, the packet describes THIS info
+		for _, md := range []*drand.Metadata{{}, {BeaconID: "default"}, {BeaconID: "some-other-beacon"}, {BeaconID: info.ID, ChainHash: []byte{1, 2, 3}}} {
+			pm := info.ToProto(md)
+			if !bytes.Equal(pm.Hash, h) {
+				c.viol("chain-hash/proto-embedded-hash-differs", fmt.Sprintf("with caller metadata %q: %x != %x", md.GetBeaconID(), pm.Hash, h))
+			}
+			im, err := chaininfo.InfoFromProto(pm)
+			check("proto-with-caller-metadata", im, err)
+			var mb bytes.Buffer
+			if err := info.ToJSON(&mb, &drand.Metadata{BeaconID: md.GetBeaconID()}); err == nil {
+				ij, err := chaininfo.InfoFromJSON(&mb)
+				check("hexjson-with-caller-metadata", ij, err)
+			}
+		}
 		jb, err := json.Marshal(info)
 		if err != nil {
 			c.viol("chain-hash/path-fails/json-marshal", err.Error())
